@@ -1169,7 +1169,7 @@ impl Part for Random {
         "random"
     }
     fn cases(&self, tier: Tier) -> u32 {
-        tier.pick(4000, 80_000)
+        tier.pick(6000, 80_000)
     }
     fn strategy(&self, _: Tier) -> BoxedStrategy<Case> {
         case_strategy(false, 8, false)
